@@ -14,10 +14,10 @@ CLAIMS = {
                 'evaluator model returns exactly what the independent step-by-step specification coq/Spec.v selects — values, '
                 'multiplicity, order, accessor wrapping — and fails exactly when the specification selects nothing; unbounded path '
                 'depth, filter nesting and document size. C01_end_to_end: from the path TEXT — every tree Parse returns is well formed '
-                '(C02_parsed_trees_well_formed), so no hypothesis on the tree remains. C01_chain_retrieval: for EVERY path made of name steps (three spellings), index steps and wildcard steps the text is '
+                '(C02_parsed_trees_well_formed), so no hypothesis on the tree remains. C01_chain_retrieval: for EVERY path made of name steps (three spellings), index steps and wildcard steps, each possibly after `..`, the text is '
                 'accepted and the retrieval returns exactly the values reached by walking the DOCUMENT step by step (nav_all, defined '
                 'without any syntax tree: one value for a name or index, all members in ascending key order / all elements in index order '
-                'for a wildcard), in order, with locations in accessor mode, failing exactly when nothing is reached — by induction over the '
+                'for a wildcard, `..step` = the step applied to every container below in pre-order), in order, with locations in accessor mode, failing exactly when nothing is reached — by induction over the '
                 'step list through the PEG derivation, the token replay, setNodeChain, the value-group bookkeeping and setConnectedText. '
                 'Not a theorem for the other step kinds: which AST a given text denotes (parser model vs '
                 'real parser by tree dumps and through the API). Correspondence: generated paths x documents; the extracted '
